@@ -2,7 +2,8 @@
 
 Space: code items over an instruction skeleton of L code units (L = 6 even, L = 7 odd -> 2-byte padding before the tries),
 k in {1,2,3} try items whose (start,count) are ALL ordered non-overlapping ranges of the skeleton; each try picks its
-handler from the handler alphabet H (typed x {0,1,2} pairs in both orders, catch-all present/absent, type index < 128 and
+handler from the handler alphabet H (typed x {0,1,2} pairs in both orders, catch-all present/absent, explicit Throwable + catch-all,
+the same type listed twice, type index < 128 and
 >= 128 (two-byte uleb), handler addresses at both ends of the skeleton); the encoded handler list is the distinct picked
 handlers in first-use order, in reversed order, with an unused handler in front, and with legal NON-minimal LEB128
 numbers in all handlers / in the first handler only (shared vs distinct handler lists arise
@@ -30,7 +31,8 @@ MANIFEST = {
     "note": "Trusted: gen/dexgen code-item writer (conformance-checked on shipped files).",
 }
 
-EXC, BIG = "Ljava/lang/Exception;", "Lzz/Big;"
+EXC, BIG, THR = "Ljava/lang/Exception;", "Lzz/Big;", "Ljava/lang/Throwable;"
+NH = 10
 BATCH = 64
 
 
@@ -39,10 +41,12 @@ def handler_alphabet(L):
     return [
         ([(EXC, a0)], None), ([(BIG, a1)], None), ([(EXC, a0), (BIG, a1)], None), ([(BIG, a0), (EXC, a1)], None),
         ([], a1), ([(EXC, a0)], a1), ([(EXC, a0), (BIG, a1)], a0), ([(BIG, a1)], a0),
+        # the try/catch(Throwable)/finally shape javac emits: Throwable named explicitly AND a catch-all; the same type listed twice
+        ([(THR, a0)], a1), ([(EXC, a0), (EXC, a1)], None),
     ]
 
 
-H3 = [0, 4, 6]
+H3 = [0, 4, 6, 8]
 
 
 def ranges(L, k):
@@ -62,7 +66,7 @@ def cases(ctx):
     """yield (L, tries ranges, picks, layout)"""
     for L in (6, 7):
         for k in (1, 2, 3):
-            alpha = range(8) if (k < 3 or ctx.thorough) else H3
+            alpha = range(NH) if (k < 3 or ctx.thorough) else H3
             for rg in ranges(L, k):
                 for picks in itertools.product(alpha, repeat=k):
                     for layout in (0, 1, 2, 3, 4):
@@ -83,7 +87,7 @@ def build_case(case):
     hl = [H[i] for i in used]
     off = 0
     if layout == 2:
-        unused = [i for i in range(8) if i not in picks][0]
+        unused = [i for i in range(NH) if i not in picks][0]
         hl = [H[unused]] + hl
         off = 1
     tries = [(s, c, used.index(p) + off) for (s, c), p in zip(rg, picks)]
@@ -114,6 +118,10 @@ def features(case):
         f.append("typed+catchall")
     if any(t == BIG for p in picks for t, _ in H[p][0]):
         f.append("uleb2-type-idx")
+    if 8 in picks:
+        f.append("explicit-throwable+catchall")
+    if 9 in picks:
+        f.append("same-type-twice")
     if layout:
         f.append(["", "reversed-list", "unused-handler-first", "nonminimal-leb128", "first-handler-nonminimal-leb128"][layout])
     return f
@@ -197,7 +205,7 @@ def shards(ctx):
 
 def space(ctx):
     n = sum(1 for _ in cases(ctx))
-    return {"skeleton_units": [6, 7], "k": [1, 2, 3], "handler_alphabet": 8, "k3_alphabet": 8 if ctx.thorough else 3,
+    return {"skeleton_units": [6, 7], "k": [1, 2, 3], "handler_alphabet": NH, "k3_alphabet": NH if ctx.thorough else 4,
             "layouts": ["first-use order", "reversed", "unused handler first", "all numbers non-minimal LEB128", "first handler non-minimal LEB128"], "methods": n, "methods_per_dex": BATCH}
 
 
